@@ -80,7 +80,7 @@ def run(tier, seed):
     for name, src, args in base:
         for k, row in enumerate(rows):
             items.append(('%s#row%d' % (name, k), src, list(args) + row_args(row)))
-    out = ctrace.run_pipeline(chk, items, rng, seed, nwalks=5 if quick else 10, maxlen=20, chunk_mode='some', chunk_limit=2, keep_records=True)
+    out = ctrace.run_pipeline(chk, items, rng, seed, nwalks=5 if quick else 10, maxlen=20, chunk_mode='some', chunk_limit=2, keep_records=True, cover=6 if quick else 16)
     try:
         groups = collections.defaultdict(list)
         for r in out['records']:
@@ -106,6 +106,7 @@ def run(tier, seed):
         chk.coverage = {
             'states': out['stats']['states'], 'transitions': out['stats']['transitions'],
             'traces_validated_against_impl': out['counts']['ACCEPT'], 'samples': ctrace.sample_cases(out, 2) + [{'option_row': rows[0], 'args': row_args(rows[0])}],
+            **ctrace.cover_cov(out),
             'programs': len(base), 'option_rows': len(rows), 'binaries': len([p for p in out['progs'] if p.bin]),
             'cross_row_comparisons': ncomp, 'differences': ndiff, 'trace_verdicts': dict(out['counts']),
             'unbuildable': len(out['unbuildable']), 'exhaustive': False,
